@@ -1,6 +1,8 @@
 package main
 
 import (
+	crand "crypto/rand"
+	"crypto/ed25519"
 	"bytes"
 	"crypto"
 	"crypto/rand"
@@ -51,6 +53,9 @@ var osslVariants = []osslVariant{
 	{Name: "cms-cades", Tool: "cms", Args: []string{"-cades"}},
 	{Name: "cms-receipt-request", Tool: "cms", Args: []string{"-receipt_request_to", "verif@example.invalid"}},
 	{Name: "cms-cades-nodetach-nosmimecap", Tool: "cms", Args: []string{"-cades", "-nodetach", "-nosmimecap"}, Attached: true},
+	{Name: "cms-econtent-type-nodetach", Tool: "cms", Args: []string{"-nodetach", "-econtent_type", "1.2.840.113549.1.9.16.1.4"}, Attached: true},
+	{Name: "cms-econtent-type-nodetach-nosmimecap", Tool: "cms", Args: []string{"-nodetach", "-nosmimecap", "-econtent_type", "1.2.840.113549.1.9.16.1.2"}, Attached: true},
+	{Name: "cms-econtent-type-detached", Tool: "cms", Args: []string{"-econtent_type", "1.2.840.113549.1.9.16.1.4"}},
 	{Name: "smime-noattr", Tool: "smime", Args: []string{"-noattr"}, NoAttr: true},
 	{Name: "cms-noattr-nodetach", Tool: "cms", Args: []string{"-noattr", "-nodetach"}, NoAttr: true, Attached: true},
 }
@@ -113,6 +118,7 @@ type certSet struct {
 	OtherKey *keys.Key
 	Twin     *x509.Certificate // same issuer+serial, different key
 	TwinKey  *keys.Key
+	TwinForeign []*x509.Certificate // same issuer+serial, Ed25519 / ECDSA keys
 }
 
 var (
@@ -142,6 +148,11 @@ func getCertSetPad(ki, issuerClass int, serial *big.Int, pad int) *certSet {
 	tk := keys.Get(ki + 2)
 	iss := keys.IssuerName(issuerClass, fmt.Sprint(ki))
 	c, err := keys.Mint(k, k, iss, serial, "signer"+strings.Repeat("x", pad))
+	if (ki+pad+int(serial.Int64()&0xff))%3 == 2 {
+		// an RSA leaf issued by a CA of another key type (the certificate's own signature
+		// algorithm is ECDSA; the key that signs blobs is still RSA)
+		c, err = keys.MintVia(&k.Priv.PublicKey, keys.ECCA(), iss, serial, "signer"+strings.Repeat("x", pad))
+	}
 	if err != nil {
 		panic(err)
 	}
@@ -151,6 +162,15 @@ func getCertSetPad(ki, issuerClass int, serial *big.Int, pad int) *certSet {
 		panic(err)
 	}
 	cs := &certSet{Key: k, Cert: c, Other: o, OtherKey: ok, Twin: t, TwinKey: tk}
+	// look-alikes (same issuer + serial) carrying keys of kinds the library cannot check
+	if _, edk, e := ed25519.GenerateKey(crand.Reader); e == nil {
+		if tc, e := keys.MintVia(edk.Public(), tk.Priv, iss, serial, "twin-ed25519"); e == nil {
+			cs.TwinForeign = append(cs.TwinForeign, tc)
+		}
+	}
+	if tc, e := keys.MintVia(&keys.ECCA().PublicKey, tk.Priv, iss, serial, "twin-ecdsa"); e == nil {
+		cs.TwinForeign = append(cs.TwinForeign, tc)
+	}
 	certSets[id] = cs
 	return cs
 }
@@ -280,7 +300,8 @@ func opensslSeeds(r *mon.Run, n int, withNoAttr bool) []p7seed {
 		}
 		ser := big.NewInt(int64(7000 + i))
 		if i%4 == 1 {
-			ser = new(big.Int).SetBytes(append([]byte{0x80 | byte(i)}, bytes.Repeat([]byte{byte(i)}, 11+i%8)...))
+			// 12..20 octets with the top bit set (20 octets: the INTEGER takes 21 with its sign octet)
+			ser = new(big.Int).SetBytes(append([]byte{0x80 | byte(i)}, bytes.Repeat([]byte{byte(i)}, 11+(i/4)%9)...))
 		}
 		ki := (i / 3) % 8
 		if i%9 == 5 {
